@@ -102,6 +102,22 @@ func mcWorlds(family string) []Scenario {
 				add(c, seed2)
 			}
 		}
+		// starting from established sessions (Steps = events run before the exploration)
+		sd := []sut.SeedUser{{Pid: "u1", Pw: 1, Conf: true, Sms: 1, Rc: true}, {Pid: "u2", Pw: 2, Conf: true, Totp: true, Rc: true}}
+		for _, pre := range [][]sut.Event{
+			{{Act: "LoginPost", B: "b1", Pid: "u1", Pw: 1}, {Act: "SmsValidate", B: "b1", Code: 1}, {Act: "Tick", D: 1}},
+			{{Act: "LoginPost", B: "b1", Pid: "u2", Pw: 2}, {Act: "TotpValidate", B: "b1", Tok: 1, Code: 1}},
+		} {
+			add(c0("auth", "totp", "sms", "recovery", "logout"), sd)
+			ws[len(ws)-1].Steps = pre
+		}
+		// a plain account, logged in
+		for _, ea := range []bool{false, true} {
+			c := c0("auth", "totp", "sms", "recovery", "logout")
+			c.EmailAuth, c.AppHandles2FA = ea, ea
+			add(c, seed2)
+			ws[len(ws)-1].Steps = []sut.Event{{Act: "LoginPost", B: "b1", Pid: "u1", Pw: 1}}
+		}
 	case "oauth":
 		for _, m := range [][]string{{"auth", "oauth2", "logout"}, {"auth", "oauth2", "lock", "remember", "logout"}} {
 			for _, ew := range []bool{false, true} {
@@ -388,7 +404,11 @@ func (x *explorer) key(o sut.Obs, iss map[string]int) [32]byte {
 	return sha256.Sum256(b)
 }
 
-func (x *explorer) dfs(left int, top bool) {
+// Work is split over the shards at the SECOND level (every shard takes all first-level edges,
+// then every shards-th second-level edge): first-level subtrees differ too much in size.
+func (x *explorer) dfs(left int, top bool) { x.dfsL(left, 0) }
+
+func (x *explorer) dfsL(left int, level int) {
 	o := x.w.Project()
 	iss := x.w.Issued()
 	k := x.key(o, iss)
@@ -404,9 +424,12 @@ func (x *explorer) dfs(left int, top bool) {
 			return
 		}
 	}
-	for i, e := range mcEvents(x.family, x.cfg, o, iss) {
-		if top && i%x.shards != x.shard {
-			continue
+	for _, e := range mcEvents(x.family, x.cfg, o, iss) {
+		if level == 1 || (level == 0 && left == 1) {
+			x.topIndex++
+			if x.topIndex%x.shards != x.shard {
+				continue
+			}
 		}
 		e := e // (go.mod says go 1.20: the loop variable is shared)
 		snap := x.w.Snapshot()
@@ -416,7 +439,7 @@ func (x *explorer) dfs(left int, top bool) {
 		po := x.w.Project()
 		x.lines = append(x.lines, Line{Kind: "ev", E: &e, Post: &po, Resp: &ro, Req: rq, Iss: x.w.Issued()})
 		x.edges++
-		x.dfs(left-1, false)
+		x.dfsL(left-1, level+1)
 		x.w.Restore(snap)
 		x.lines = append(x.lines, Line{Kind: "restore"}, Line{Kind: "drop"})
 	}
@@ -430,6 +453,7 @@ func exploreCmd(args []string) {
 	shards := fs.Int("shards", 16, "shards (by first-level event)")
 	maxNow := fs.Int("maxnow", 6, "bound on the abstract clock")
 	maxIss := fs.Int("maxiss", 3, "bound on issued-secret counters")
+	baseDepth := fs.Int("basedepth", 0, "depth for worlds without an established part, when the family also has worlds with one (0 = depth)")
 	fs.Parse(args)
 	worlds := mcWorlds(*family)
 	if len(worlds) == 0 {
@@ -439,6 +463,10 @@ func exploreCmd(args []string) {
 	var wg sync.WaitGroup
 	errs := make([]error, *shards)
 	edges := make([]int, *shards)
+	hasPre := false
+	for _, sc := range worlds {
+		hasPre = hasPre || len(sc.Steps) > 0
+	}
 	for sh := 0; sh < *shards; sh++ {
 		wg.Add(1)
 		go func(sh int) {
@@ -461,7 +489,19 @@ func exploreCmd(args []string) {
 				o := w.Project()
 				cfg := sc.Cfg
 				x.lines = append(x.lines, Line{Kind: "init", Name: sc.Name, Cfg: &cfg, Pids: sc.Pids, Browsers: sc.Browsers, Seed: sc.Seed, Iss: w.Issued(), Post: &o})
-				x.dfs(*depth, true)
+				for _, e := range sc.Steps { // the world's established part (validated like every other step)
+					e := e
+					e.Valid = true
+					ro, rq, _ := w.Step(e)
+					(&e).Norm()
+					po := w.Project()
+					x.lines = append(x.lines, Line{Kind: "ev", E: &e, Post: &po, Resp: &ro, Req: rq, Iss: w.Issued()})
+				}
+				d := *depth
+				if *baseDepth > 0 && len(sc.Steps) == 0 && hasPre {
+					d = *baseDepth
+				}
+				x.dfs(d, true)
 				edges[sh] += x.edges
 				all = append(all, x.lines)
 			}
